@@ -1,6 +1,7 @@
 """C05 - checkout never destroys user data that is not recoverable from the cache."""
 
 from props import _objcheckout_common as C
+from props import _objcheckout_kind as K
 from props import _objcheckout_links as L
 
 PROPERTY = "C05"
@@ -19,7 +20,7 @@ RULE = (
     "workspace or raised."
 )
 ASSUMPTIONS = [
-    "the target is a non-empty directory object; workspace paths agree in kind with the target (files stay files)",
+    "model and theorems: the target is a non-empty directory object (or a single file, C10) and workspace paths agree in kind with it; paths that change kind (file <-> directory) are judged by the lost-bytes oracle only (harness/props/_objcheckout_kind.py)",
     "cache objects are intact (corruption is C07) and the hashes fed to in_cache are not stale (C13); explicit utimes in the harness",
     "link primitives of dvc_objects behave as Model/ObjCheckout.v link_step states (exercised by the correspondence)",
     "the iteration order of old_keys | new_keys is observed and passed to the model; theorems hold for every order",
@@ -56,11 +57,15 @@ def run(ctx):
     ctx.correspond("checkout", C.IMPORTS, "co_in", "fun i => enc_result (run_in i)", items, shard=60)
     L.run_links(ctx, ctx.n(40, 400))
     L.run_refused(ctx, ctx.n(12, 48))
+    K.run_kinds(ctx, ctx.n(20, 192))
 
 
 def replay_case(ctx, case):
     if "ops" in case:
         return L.replay(ctx, case)
+    if case.get("kind_change"):
+        problems, out = K.run_kind_case(ctx, case)
+        return {"outcome": out, "problems": problems, "violates": bool(problems)}
     if case.get("refused_cleanup"):
         problems, recorded, unused = L.run_refused_cleanup(ctx, case)
         return {"recorded": recorded, "unused": unused, "problems": problems, "violates": bool(problems)}
